@@ -108,6 +108,23 @@ def cases(rng, tier):
                 for present in ([], [b], list(range(b, b + c))):
                     ops = [[1, b"first-and-longest-content;"], [1, b"second;"], [1, b""], [1, b"4th"], [1, b"x" * 40]]
                     out.append(mk(0, b, c, pattern, file, present, ops[: c + 3]))
+    # the environment changes between two rolls of ONE roller (a $ENV reference in the pattern is expanded at every
+    # roll): later rolls shift and write under the new value, what lies under the old value stays as it is
+    for (pattern, var, v1, v2) in (("$ENV{C07D}/a.{}", "C07D", "envd/x", "envd/y"), ("$ENV{C07D}/a.{}", "C07D", "envd/x", "other"),
+                                   ("p/$ENV{C07V}.{}.log", "C07V", "one", "two"), ("$ENV{C07V}{}.gz", "C07V", "g/a", "g/b")):
+        for b in (0, 1):
+            for c in (1, 2, 3):
+                for switch_at in (1, 2, c + 1):
+                    ops = []
+                    for k in range(c + 4):
+                        if k == switch_at:
+                            ops.append([2, var, v2])
+                        if k == switch_at + 2 and rng.chance(1, 2):
+                            ops.append([2, var, v1])
+                        ops.append([1, b"e%d;" % k])
+                    case = mk(0, b, c, pattern, "app.log", [], ops)
+                    case[5] = [[var, v1]]
+                    out.append(case)
     # delete roller
     for pattern in ("a.{}.log",):
         for present in ([], [0, 1]):
